@@ -240,10 +240,12 @@ class Populations:
     def __init__(
         self, populations: Iterable[Population], labels: Optional[Iterable[str]] = None
     ) -> None:
-        self.len = min(len(p) for p in populations)
         self.populations = list(populations)
+        self.len = min(len(p) for p in self.populations)
 
-        labels = list(labels) if labels is not None else ["" for i in populations]
+        labels = (
+            list(labels) if labels is not None else ["" for i in self.populations]
+        )
         assert len(labels) == len(
             self.populations
         ), f"got {len( self.populations)} populations, but has {len(labels)} labels"
